@@ -44,11 +44,11 @@ func runC04(c *Ctx) {
 }
 
 var placementWriters = map[string]string{
-	"board.(*Board).addPiece":      "the one place that sets a piece in all three encodings",
-	"board.(*Board).removePiece":   "the one place that clears a piece in all three encodings",
-	"board.(*fenParser).position":  "FEN placement parser fills an empty board",
-	"board.ParseFEN":               "whole-struct reset before parsing",
-	"board.FromFEN":                "zero-value construction of a fresh board",
+	"board.(*Board).addPiece":     "the one place that sets a piece in all three encodings",
+	"board.(*Board).removePiece":  "the one place that clears a piece in all three encodings",
+	"board.(*fenParser).position": "FEN placement parser fills an empty board",
+	"board.ParseFEN":              "whole-struct reset before parsing",
+	"board.FromFEN":               "zero-value construction of a fresh board",
 }
 
 // c04R1: single-writer discipline + lock-step shape of addPiece/removePiece.
@@ -974,10 +974,24 @@ func c04R4(c *Ctx, p *Prog, rule string) {
 			if len(t.Idx) == 1 && t.Xor != nil {
 				if x, isFile := fileOf(t.Idx[0]); isFile && isFieldLoad(stripConv(x), "Board.EnPassant") {
 					conds := controllingConds(t.Xor.Block())
+					common := controllingConds(ret.Block()) // e.g. the exit of a preceding loop: not a restriction
+					extra := 0
 					for _, ce := range conds {
+						shared := false
+						for _, cc := range common {
+							if cc.Cond == ce.Cond && cc.True == ce.True {
+								shared = true
+							}
+						}
 						if ce.True && isNeqZeroOfField(ce.Cond, "Board.EnPassant") {
 							ok = true
+						} else if !shared {
+							extra++
 						}
+					}
+					if ok && extra > 0 {
+						c.Fail(rule, key, t.Val.Pos(), "the from-scratch hash includes the en-passant key under an additional condition besides EnPassant != 0, while the incremental update removes the old key whenever EnPassant != 0: after loading such a position the first move xors in a key that was never there")
+						continue
 					}
 				}
 			}
@@ -1066,8 +1080,8 @@ func init() {
 func init() {
 	addMutants(
 		Mutant{Name: "C04.R3-castling-keys-only-on-king-or-rook-moves", Prop: "C04", File: "board/board.go",
-			Old: "\thash ^= castlingRand[0] & hashEnable[(castlingChange>>0)&1]\n\thash ^= castlingRand[1] & hashEnable[(castlingChange>>1)&1]\n\thash ^= castlingRand[2] & hashEnable[(castlingChange>>2)&1]\n\thash ^= castlingRand[3] & hashEnable[(castlingChange>>3)&1]\n",
-			New: "\tif piece == King || piece == Rook {\n\t\thash ^= castlingRand[0] & hashEnable[(castlingChange>>0)&1]\n\t\thash ^= castlingRand[1] & hashEnable[(castlingChange>>1)&1]\n\t\thash ^= castlingRand[2] & hashEnable[(castlingChange>>2)&1]\n\t\thash ^= castlingRand[3] & hashEnable[(castlingChange>>3)&1]\n\t}\n",
+			Old:    "\thash ^= castlingRand[0] & hashEnable[(castlingChange>>0)&1]\n\thash ^= castlingRand[1] & hashEnable[(castlingChange>>1)&1]\n\thash ^= castlingRand[2] & hashEnable[(castlingChange>>2)&1]\n\thash ^= castlingRand[3] & hashEnable[(castlingChange>>3)&1]\n",
+			New:    "\tif piece == King || piece == Rook {\n\t\thash ^= castlingRand[0] & hashEnable[(castlingChange>>0)&1]\n\t\thash ^= castlingRand[1] & hashEnable[(castlingChange>>1)&1]\n\t\thash ^= castlingRand[2] & hashEnable[(castlingChange>>2)&1]\n\t\thash ^= castlingRand[3] & hashEnable[(castlingChange>>3)&1]\n\t}\n",
 			Expect: "C04.R3/board.(*Board).MakeMove#castlingRand"},
 	)
 }
